@@ -153,7 +153,7 @@ fn run(prog: &Program, opt: &HashMap<String, Vec<String>>) {
 			s.begin_run(keep);
 		}
 		it.frames.clear();
-		it.dpos = 0;
+		it.tpos = 0;
 		it.spec_marks.clear();
 		it.stubs.clear();
 		it.depth = 0;
@@ -215,23 +215,30 @@ fn run(prog: &Program, opt: &HashMap<String, Vec<String>>) {
 		if mode == Mode::Concrete {
 			break;
 		}
-		// next path: flip the deepest decision whose other side is untried
-		it.decisions.truncate(it.dpos.max(0).min(it.decisions.len()));
-		while let Some(d) = it.decisions.last() {
-			if d.other_tried {
-				it.decisions.pop();
-			} else {
-				break;
+		if std::env::var("RSX_TRACE").is_ok() {
+			eprintln!("path {} trace {:?}", paths, it.trace);
+		}
+		// next path: flip the deepest fork whose other side is untried
+		let upto = it.tpos.min(it.trace.len());
+		it.trace.truncate(upto);
+		loop {
+			match it.trace.last() {
+				Some(Rec::Branch { fork: true, tried: false, .. }) => break,
+				Some(_) => {
+					it.trace.pop();
+				}
+				None => break,
 			}
 		}
-		match it.decisions.last_mut() {
+		match it.trace.last_mut() {
 			None => break,
-			Some(d) => {
-				d.taken = !d.taken;
-				d.other_tried = true;
+			Some(Rec::Branch { taken, tried, .. }) => {
+				*taken = !*taken;
+				*tried = true;
 			}
+			_ => unreachable!(),
 		}
-		keep = it.decisions.len() - 1;
+		keep = it.trace.iter().filter(|r| matches!(r, Rec::Branch { fork: true, .. })).count() - 1;
 		if paths + infeasible >= max_paths {
 			status = "path-budget".into();
 			break;
@@ -247,9 +254,9 @@ fn run(prog: &Program, opt: &HashMap<String, Vec<String>>) {
 	let sat: Vec<_> = it.events.iter().filter(|e| e.result == "sat").take(40).map(|e| json!({"kind": e.kind, "label": e.label, "path": e.path, "model": e.model.iter().map(|(k, v)| json!([k, v])).collect::<Vec<_>>()})).collect();
 	let unknown = it.events.iter().filter(|e| e.result == "unknown").count();
 	let sample: Vec<_> = it.events.iter().filter(|e| e.result == "unsat").take(3).map(|e| json!({"label": e.label, "path": e.path, "result": e.result, "ms": e.ms})).collect();
-	let (queries, stime, cmd) = match it.sol.as_ref() {
-		Some(s) => (s.queries, s.time.as_secs_f64(), s.cmd.clone()),
-		None => (0, 0.0, "none".into()),
+	let (queries, stime, cmd, standalone, cvc5d) = match it.sol.as_ref() {
+		Some(s) => (s.queries, s.time.as_secs_f64(), s.cmd.clone(), s.standalone_runs, s.cvc5_decided),
+		None => (0, 0.0, "none".into(), 0, 0),
 	};
 	let out = json!({
 		"status": status,
@@ -270,6 +277,8 @@ fn run(prog: &Program, opt: &HashMap<String, Vec<String>>) {
 		"queries": queries,
 		"solver_s": stime,
 		"solver": cmd,
+		"standalone_queries": standalone,
+		"decided_by_cvc5": cvc5d,
 		"wall_s": t0.elapsed().as_secs_f64(),
 		"terms": it.tm.size(),
 		"functions": it.fn_used.iter().cloned().collect::<Vec<_>>(),
